@@ -15,6 +15,8 @@ import Driver.OpsLatColor666ToricCode
 import Driver.OpsLatHollowPlanar3DCode
 import Driver.OpsLatPlanar2DCode
 import Driver.OpsLatPlanar3DCode
+import Driver.OpsLatRhombicPlanarCode
+import Driver.OpsLatRhombicToricCode
 import Driver.OpsLatRotatedPlanar2DCode
 import Driver.OpsLatRotatedPlanar3DCode
 import Driver.OpsLatRotatedToric3DCode
@@ -35,7 +37,7 @@ open Panqec
     (`none` = not my op); the first that answers wins. -/
 
 def handlers : List (List String → Option String) :=
-  [Drv.handleAnalysis, Drv.handleBatch, Drv.handleBits, Drv.handleCli, Drv.handleCode, Drv.handleDecoders, Drv.handleDeform, Drv.handleDist, Drv.handleGui, Drv.handleLatColor488Code, Drv.handleLatColor666PlanarCode, Drv.handleLatColor666ToricCode, Drv.handleLatHollowPlanar3DCode, Drv.handleLatPlanar2DCode, Drv.handleLatPlanar3DCode, Drv.handleLatRotatedPlanar2DCode, Drv.handleLatRotatedPlanar3DCode, Drv.handleLatRotatedToric3DCode, Drv.handleLatToric2DCode, Drv.handleLatToric3DCode, Drv.handleLatXCubeCode, Drv.handleMask, Drv.handleMbp, Drv.handleNoise, Drv.handleSim, Drv.handleSweep, Drv.handleUnionFind, Drv.handleXCube]
+  [Drv.handleAnalysis, Drv.handleBatch, Drv.handleBits, Drv.handleCli, Drv.handleCode, Drv.handleDecoders, Drv.handleDeform, Drv.handleDist, Drv.handleGui, Drv.handleLatColor488Code, Drv.handleLatColor666PlanarCode, Drv.handleLatColor666ToricCode, Drv.handleLatHollowPlanar3DCode, Drv.handleLatPlanar2DCode, Drv.handleLatPlanar3DCode, Drv.handleLatRhombicPlanarCode, Drv.handleLatRhombicToricCode, Drv.handleLatRotatedPlanar2DCode, Drv.handleLatRotatedPlanar3DCode, Drv.handleLatRotatedToric3DCode, Drv.handleLatToric2DCode, Drv.handleLatToric3DCode, Drv.handleLatXCubeCode, Drv.handleMask, Drv.handleMbp, Drv.handleNoise, Drv.handleSim, Drv.handleSweep, Drv.handleUnionFind, Drv.handleXCube]
 
 def handleToks (toks : List String) : String :=
   match handlers.findSome? (fun h => h toks) with
